@@ -444,6 +444,9 @@ func replayDir(id, facet string) string {
 }
 
 func failDir(id string) string {
+	if d := os.Getenv("VERIF_FAIL_DIR"); d != "" {
+		return filepath.Join(d, id)
+	}
 	return filepath.Join(GetEnv().VerifRoot, ".work", "fail", id)
 }
 
